@@ -930,14 +930,14 @@ def judge(data, script, dec, expect_forward=None, cache_on=False, denied=None, e
     return V
 
 
-def _after_cstrings(bs, off, n):
-    """Index just past the n-th NUL-terminated string starting at `off` (None if a byte on the way is symbolic)."""
+def _after_cstrings(dec, bs, off, n):
+    """Index just past the n-th NUL-terminated string starting at `off`; whether a symbolic byte is the terminator is settled
+    by the decider (on the symbolic side the path already fixed it: pgcat parsed the same string)."""
     for _ in range(n):
         while off < len(bs):
-            if not bs[off].concrete:
-                return None
+            b = bs[off]
             off += 1
-            if bs[off - 1].v == 0:
+            if (b.v == 0) if b.concrete else dec(b.z() == 0):
                 break
     return off
 
@@ -950,12 +950,12 @@ def same_msg(dec, got, want, cache_on):
         return False
     code = chr(got[0].v) if got[0].concrete else '?'
     if code == 'P':
-        a, b = _after_cstrings(got, 5, 1), _after_cstrings(want, 5, 1)
-        return a is not None and b is not None and same_bytes(dec, got[a:], want[b:])
+        a, b = _after_cstrings(dec, got, 5, 1), _after_cstrings(dec, want, 5, 1)
+        return same_bytes(dec, got[a:], want[b:])
     if code == 'B':
-        a, b = _after_cstrings(got, 5, 2), _after_cstrings(want, 5, 2)
-        pa, pb = _after_cstrings(got, 5, 1), _after_cstrings(want, 5, 1)
-        return None not in (a, b, pa, pb) and same_bytes(dec, got[5:pa], want[5:pb]) and same_bytes(dec, got[a:], want[b:])
+        a, b = _after_cstrings(dec, got, 5, 2), _after_cstrings(dec, want, 5, 2)
+        pa, pb = _after_cstrings(dec, got, 5, 1), _after_cstrings(dec, want, 5, 1)
+        return same_bytes(dec, got[5:pa], want[5:pb]) and same_bytes(dec, got[a:], want[b:])
     if code in 'DC':
         return same_bytes(dec, got[5:6], want[5:6])
     return same_bytes(dec, got, want)
